@@ -91,8 +91,13 @@ def compile_goals(tag, imports, body, what, timeout=900, stdlib="List ZArith Boo
         path = os.path.join(d, "cases.v")
         with open(path, "w") as f:
             f.write("\n".join(head + body) + "\n")
-        p = subprocess.run(["timeout", str(timeout), "coqc", "-Q", os.path.join(VERIF, "coq"), "Koala", "cases.v"], cwd=d,
-                           stdout=subprocess.PIPE, stderr=subprocess.STDOUT, text=True)
+        cmd = ["timeout", str(timeout), "coqc", "-Q", os.path.join(VERIF, "coq"), "Koala", "cases.v"]
+        p = subprocess.run(cmd, cwd=d, stdout=subprocess.PIPE, stderr=subprocess.STDOUT, text=True)
+        if p.returncode not in (0, 124) and "Unable to unify" not in p.stdout:
+            # not a disagreement (that is reflexivity's "Unable to unify"): e.g. a .vo being rewritten by a concurrent
+            # ./check at the moment it was loaded.  One retry; a real breakage (renamed model function, ...) fails again.
+            time.sleep(15)
+            p = subprocess.run(cmd, cwd=d, stdout=subprocess.PIPE, stderr=subprocess.STDOUT, text=True)
         if p.returncode != 0:
             msg = p.stdout[-900:]
             m = __import__("re").search(r'line (\d+)', p.stdout)
